@@ -187,6 +187,13 @@ func (w *txWorld) arrive(ti *txInfo, source string, pump bool) {
 			if len(invHashes(resp, wire.InvTypeTx)) > 0 {
 				w.e.handle(ti.tx)
 			}
+		case "trusted-inv-nobody":
+			// announced, requested, but the body never arrives
+			w.e.handle(inv)
+		case "untrusted-inv-nobody":
+			if len(w.untr) > 0 {
+				w.untr[0].handle(w.e.ctx, inv)
+			}
 		case "trusted-bare":
 			w.e.handle(ti.tx)
 			ti.trustedVouched = ti.trustedVouched || ready
@@ -350,6 +357,42 @@ func (w *txWorld) reorg(depth int, newTxs [][]*txInfo, parse bool) {
 			}
 		}
 	})
+}
+
+// dropConnection re-issues what Run does between two trusted connections (save, reset the
+// volatile state) and starts the next handshake; the node is then catching up (not in sync) until
+// finishSync.
+func (w *txWorld) dropConnection() {
+	w.tracef("trusted connection dropped; reconnecting (node not in sync)")
+	n := w.e.node
+	n.blocks.Save(w.e.ctx)
+	n.txs.Save(w.e.ctx)
+	n.peers.Save(w.e.ctx)
+	n.state.Reset()
+	n.state.MarkConnected()
+	w.guard("handshake", func() {
+		v := wire.NewMsgVersion(wire.NewNetAddressIPPort([]byte{127, 0, 0, 1}, 1, 0), wire.NewNetAddressIPPort([]byte{127, 0, 0, 1}, 2, 0), 7, int32(w.tip.Height))
+		w.e.handle(v)
+		n.check(w.e.ctx)
+		w.e.drain()
+	})
+}
+
+// finishSync answers the node's header polls with "nothing new" until it is in sync again.
+func (w *txWorld) finishSync() {
+	w.tracef("peer answers the header poll: nothing new")
+	w.guard("resync", func() {
+		for i := 0; i < 8 && !w.e.node.state.IsReady(); i++ {
+			w.e.handle(wire.NewMsgHeaders())
+			for w.stepBlock() {
+			}
+			w.e.node.check(w.e.ctx)
+			w.e.drain()
+		}
+	})
+	if !w.e.node.state.IsReady() {
+		w.find("C01", "C01/dd-resync-failed", "node did not return to in-sync after an empty headers reply")
+	}
 }
 
 func (w *txWorld) restart() error {
